@@ -292,6 +292,11 @@ func c08Eval(r *harness.Run, entries []c08Entry, scope string, opt bool, sw map[
 					// multi-token var and value that mention constants (const KC = 1, const KD = 2)
 					v, ev = "VAR_"+T+" + ( KC )", "VAR_"+T+" + ( 1 )"
 					n, en = fmt.Sprintf("%d * KD %% 5", j), fmt.Sprintf("%d * 2 %% 5", j)
+					if j%2 == 1 {
+						// ... or a keyword value / a value that starts with an operator (passed through like any other)
+						n = []string{"TRUE", "FALSE", "- KC", "! VAR_X"}[(i+j/2)%4]
+						en = strings.ReplaceAll(n, "KC", "1")
+					}
 				}
 				if te.inline {
 					name := fmt.Sprintf("M_%s_%d", T, j)
